@@ -138,6 +138,9 @@ class Rig:
         from canopen.profiles.p402 import BaseNode402
         tr = case.get("tr", "sdo")
         layouts, tpdo_tt, rpdo_tt, thread = TRANSPORTS[tr]
+        if case.get("ev_tt") and tpdo_tt == 255 and rpdo_tt == 255:
+            # the other event-driven transmission type (254 = manufacturer specific event)
+            tpdo_tt = rpdo_tt = case["ev_tt"]
         layout = case.get("layout", layouts[0])
         if layout not in layouts and not (tr == "ev" and layout == "M"):
             raise BadCase(f"layout {layout} with transport {tr}")
@@ -606,6 +609,8 @@ def pair_cases(tier):
                         for layout, setup in combos:
                             case = {"fam": "pair", "tr": tr, "start": start, "target": target, "k": k,
                                     "extras": extras, "qs": qs, "layout": layout, "setup": setup}
+                            if (i // 7) % 3 == 1 and tr in ("ev", "cw", "sw"):
+                                case["ev_tt"] = 254
                             if (i // 5) % 3 == 0 and tr != "sdo":
                                 # a non-zero event timer / reception deadline changes nothing for the master
                                 case["evt"] = 100
@@ -677,6 +682,8 @@ def hist_case(draw):
             "lvl": draw(st.booleans())}
     if tr != "sdo" and draw(st.integers(0, 2)) == 0:
         case["evt"] = draw(st.sampled_from([1, 100, 0xFFFF]))
+    if tr in ("ev", "cw", "sw", "free") and draw(st.integers(0, 2)) == 0:
+        case["ev_tt"] = 254
     case["cw0"] = draw(st.sampled_from(CW_CONSISTENT[case["start"]]))
     if tr == "sdo":
         case["od_pdo"] = draw(st.booleans())
